@@ -38,6 +38,159 @@ def _resets_cache(fn):
     return reset_at > last_loop
 
 
+_STATE = ('_op_type_map', '_op_type_tree', '_type_cache')
+_FRESH_CALLS = ('dict', 'OrderedDict', 'list', 'set', 'sorted', 'tuple', 'frozenset', 'sum', 'copy', 'deepcopy')
+_MUTATORS = ('pop', 'popitem', 'update', 'clear', 'setdefault', '__setitem__', '__delitem__',
+             'move_to_end', 'append', 'extend', 'insert', 'remove')
+
+
+def _root_state(node, aliases):
+    """the registry attribute (or alias of live registry state) an expression reaches into, else
+    None.  `self._op_type_map[...]`, `self._op_type_map.get(...)`, `.setdefault(...)`, `alias[...]`
+    all evaluate to objects *inside* the live state; calls of dict()/OrderedDict()/list()/... build
+    fresh objects."""
+    while True:
+        if isinstance(node, ast.Attribute) and isinstance(node.value, ast.Name) \
+                and node.value.id == 'self' and node.attr in _STATE:
+            return node.attr
+        if isinstance(node, ast.Name):
+            return aliases.get(node.id)
+        if isinstance(node, ast.Subscript):
+            node = node.value
+            continue
+        if isinstance(node, ast.Call) and isinstance(node.func, ast.Attribute) \
+                and node.func.attr in ('get', 'setdefault', 'pop', '__getitem__'):
+            node = node.func.value
+            continue
+        return None
+
+
+def _writes_and_raises(fn, P, where):
+    """(ok, early) — ok: every top-level statement of `fn` that writes registry state
+    (`self._op_type_map` / `_op_type_tree` / `_type_cache`, directly, through a local alias of live
+    state, through a mutating method or through `self._register_fuzzy_type`) comes strictly after
+    the last top-level statement that contains a `raise`; the one write tolerated earlier is
+    `….setdefault(key, <empty dict>)`, which creates an empty per-op table (returned in `early`)."""
+    if fn is None:
+        return False, []
+    aliases = {}
+    # aliases are collected over the whole body first (flow-insensitive: a name once bound to live
+    # state is treated as live everywhere)
+    for node in ast.walk(fn):
+        if isinstance(node, ast.Assign) and len(node.targets) == 1 and isinstance(node.targets[0], ast.Name):
+            v = node.value
+            if isinstance(v, ast.Call) and isinstance(v.func, ast.Name) and v.func.id in _FRESH_CALLS:
+                continue
+            root = _root_state(v, aliases)
+            if root:
+                aliases[node.targets[0].id] = root
+    # a second pass for aliases of aliases
+    for node in ast.walk(fn):
+        if isinstance(node, ast.Assign) and len(node.targets) == 1 and isinstance(node.targets[0], ast.Name):
+            v = node.value
+            if isinstance(v, ast.Call) and isinstance(v.func, ast.Name) and v.func.id in _FRESH_CALLS:
+                continue
+            root = _root_state(v, aliases)
+            if root:
+                aliases[node.targets[0].id] = root
+        if isinstance(node, (ast.For, ast.comprehension)):
+            # `for k, sub in alias.items()` – loop variables over live state are live as well
+            it = node.iter
+            if isinstance(it, ast.Call) and isinstance(it.func, ast.Attribute) \
+                    and it.func.attr in ('items', 'values') and _root_state(it.func.value, aliases):
+                for n in ast.walk(node.target):
+                    if isinstance(n, ast.Name):
+                        aliases[n.id] = _root_state(it.func.value, aliases)
+
+    def empty_default(call):
+        return (len(call.args) == 2 and not call.keywords and _empty_dict(call.args[1]))
+
+    def writes(st):
+        out = []
+        for node in ast.walk(st):
+            targets = []
+            if isinstance(node, ast.Assign):
+                targets = node.targets
+            elif isinstance(node, (ast.AugAssign, ast.AnnAssign)):
+                targets = [node.target]
+            elif isinstance(node, ast.Delete):
+                targets = node.targets
+            for tg in targets:
+                for t in (tg.elts if isinstance(tg, (ast.Tuple, ast.List)) else [tg]):
+                    if isinstance(t, ast.Name):
+                        continue           # (re)binding a local name writes nothing
+                    root = _root_state(t, aliases)
+                    if root:
+                        out.append(('store', root, node.lineno))
+            if isinstance(node, ast.Call) and isinstance(node.func, ast.Attribute):
+                f = node.func
+                if f.attr in _MUTATORS and _root_state(f.value, aliases):
+                    kind = 'setdefault-empty' if f.attr == 'setdefault' and empty_default(node) else 'mutate'
+                    out.append((kind, _root_state(f.value, aliases), node.lineno))
+                if isinstance(f.value, ast.Name) and f.value.id == 'self' and f.attr == '_register_fuzzy_type':
+                    out.append(('fuzzy', '_op_type_tree', node.lineno))
+        return out
+
+    last_raise = -1
+    for i, st in enumerate(fn.body):
+        if any(isinstance(n, ast.Raise) for n in ast.walk(st)):
+            last_raise = i
+    ok = True
+    early = []
+    n_late = 0
+    for i, st in enumerate(fn.body):
+        for kind, root, line in writes(st):
+            if i > last_raise:
+                n_late += 1
+            elif kind == 'setdefault-empty':
+                early.append('%s.setdefault(k, <empty>)' % root)
+            else:
+                ok = False
+                P.add('%s: line %d writes self.%s (%s) before the last raise of the function'
+                      % (where, line, root, kind))
+    if last_raise < 0 or n_late == 0:
+        P.add('%s: no raise / no write recognised' % where)
+        ok = False
+    return ok, sorted(set(early))
+
+
+def _memo_stores_only_success(fn, P):
+    """get_handler: the memo is read by a membership test; inside the miss branch the statement
+    `if ret is False and raise_exc: raise UnregisteredTarget(...)` precedes the only store
+    `self._type_cache[cache_key] = ret`; outside the miss branch nothing raises and the function
+    returns `self._type_cache[cache_key]`"""
+    if fn is None:
+        return False
+    body = [st for st in fn.body if not (isinstance(st, ast.Expr) and isinstance(st.value, ast.Constant))]
+    miss = [st for st in body if isinstance(st, ast.If)
+            and ast.unparse(st.test) == 'cache_key not in self._type_cache' and not st.orelse]
+    if len(miss) != 1:
+        P.add('get_handler: the memo test `if cache_key not in self._type_cache:` was not recognised')
+        return False
+    miss = miss[0]
+    stores = [n for n in ast.walk(fn) if isinstance(n, (ast.Assign, ast.AugAssign))
+              and any(_root_state(t, {}) == '_type_cache' and not isinstance(t, ast.Name)
+                      for t in (n.targets if isinstance(n, ast.Assign) else [n.target]))]
+    mutators = [n for n in ast.walk(fn) if isinstance(n, ast.Call) and isinstance(n.func, ast.Attribute)
+                and n.func.attr in _MUTATORS and _root_state(n.func.value, {}) == '_type_cache']
+    raise_at = store_at = -1
+    for i, st in enumerate(miss.body):
+        if (isinstance(st, ast.If) and ast.unparse(st.test) == 'ret is False and raise_exc'
+                and len(st.body) == 1 and isinstance(st.body[0], ast.Raise) and not st.orelse):
+            raise_at = i
+        if ast.unparse(st) == 'self._type_cache[cache_key] = ret':
+            store_at = i
+    raises_outside = [n for st in body if st is not miss for n in ast.walk(st) if isinstance(n, ast.Raise)]
+    raises_inside = [n for n in ast.walk(miss) if isinstance(n, ast.Raise)]
+    ret_ok = bool(body) and ast.unparse(body[-1]) == 'return self._type_cache[cache_key]'
+    ok = (0 <= raise_at < store_at and len(stores) == 1 and not mutators and not raises_outside
+          and len(raises_inside) == 1 and ret_ok and store_at == len(miss.body) - 1)
+    if not ok:
+        P.add('get_handler: expected `if ret is False and raise_exc: raise …` before the single memo '
+              'store at the end of the miss branch and `return self._type_cache[cache_key]`')
+    return ok
+
+
 def _reg_op_call(call, P, where):
     """register_op('name', auto, exact=…) -> (op, has_auto, exact) or None"""
     args = list(call.args)
@@ -151,6 +304,12 @@ def extract(ctx):
         P.add('TargetRegistry.register / register_op not found')
     register_resets = _resets_cache(reg_fn)
     register_op_resets = _resets_cache(regop_fn)
+
+    # ---- rejected calls: validate first, write afterwards; failed lookups are not memoised
+    register_two_phase, register_early = _writes_and_raises(reg_fn, P, 'TargetRegistry.register')
+    register_op_two_phase, register_op_early = _writes_and_raises(regop_fn, P, 'TargetRegistry.register_op')
+    memo_only_success = _memo_stores_only_success(
+        find_def(core_tree, 'get_handler', cls='TargetRegistry'), P)
 
     # ---- _get_matching_types / _get_closest_type
     picks_min = drops_supers = matching_deepest = False
@@ -291,6 +450,11 @@ def extract(ctx):
         ('c13InitOrder', 'Bool', bool(init_order_ok)),
         ('c13RegisterResetsMemo', 'Bool', bool(register_resets)),
         ('c13RegisterOpResetsMemo', 'Bool', bool(register_op_resets)),
+        ('c13RegisterWritesAfterLastRaise', 'Bool', bool(register_two_phase)),
+        ('c13RegisterOpWritesAfterLastRaise', 'Bool', bool(register_op_two_phase)),
+        ('c13RegisterEarlyWrites', 'List String', register_early),
+        ('c13RegisterOpEarlyWrites', 'List String', register_op_early),
+        ('c13MemoStoresOnlySuccess', 'Bool', bool(memo_only_success)),
         ('c13ClosestPicksMin', 'Bool', bool(picks_min)),
         ('c13ClosestDropsSupers', 'Bool', bool(drops_supers)),
         ('c13MatchingDeepest', 'Bool', bool(matching_deepest)),
